@@ -3,6 +3,10 @@ import gfapy
 class SameID:
 
   def _process_not_unique(self, previous):
+    if previous.record_type != self.record_type:
+      # the identifier belongs to a line of another type: not a group to extend
+      return super()._process_not_unique(previous)
+    self._check_tags_of_previous_group_definition(previous)
     self._gfa = previous.gfa
     self._initialize_references()
     cur_items = self.get("items")
@@ -11,6 +15,18 @@ class SameID:
                             set_reference = True)
     self._import_tags_of_previous_group_definition(previous)
     return None
+
+  def _check_tags_of_previous_group_definition(self, previous):
+    for tag in previous.tagnames:
+      prv = previous.get(tag)
+      cur = self.get(tag)
+      if cur and cur != prv:
+        raise gfapy.NotUniqueError(
+          "Same tag defined differently in "+
+          "multiple group lines with same ID\n"+
+          "Previous tag definition: {}\n".format(prv)+
+          "New tag definition: {}\n".format(cur)+
+          "Group ID: {}".format(self.name))
 
   def _import_tags_of_previous_group_definition(self, previous):
     for tag in previous.tagnames:
